@@ -291,6 +291,11 @@ func runSdsuRandom(c *hx.Ctx, g *gen, l *loop) {
 	pol := g.r.PickS(pols)
 	ops := []string{"U" + pol}
 	k := 0
+	if g.r.Chance(80) {
+		// mostly: the secrets are delivered (Ready) before the updates that matter
+		k++
+		ops = append(ops, "S1")
+	}
 	n := 3 + g.r.Intn(6)
 	for i := 0; i < n; i++ {
 		switch x := g.r.Intn(100); {
